@@ -2,6 +2,7 @@ package generator
 
 import (
 	"fmt"
+	"math"
 	"reflect"
 	"strconv"
 	"strings"
@@ -406,6 +407,16 @@ func (v *numericValidator) genBoundary(
 ) {
 	if boundary == nil {
 		return
+	}
+
+	if v.roundToInt && *boundary != math.Trunc(*boundary) {
+		// No integer equals a fractional bound: the nearest integer inside the range is an inclusive bound.
+		rounded := math.Floor(*boundary)
+		if sign == ">" {
+			rounded = math.Ceil(*boundary)
+		}
+
+		boundary, exclusive = &rounded, false
 	}
 
 	// Technically, this should be based on schema version, but that information is lost.
